@@ -51,6 +51,7 @@ type Op struct {
 	wasBlocked  bool
 	BlockedAt   time.Duration
 	BlockedStep int64
+	protoAt     int // (C15) protocol the connection spoke when the reply was read
 }
 
 type Violation struct {
@@ -84,6 +85,8 @@ type simClient struct {
 	cliClosed bool
 	pos       int
 	sendbuf   []byte
+	cuts      []int
+	sent      int
 	sendOp    *Op
 	pending   []*Op
 	recv      []byte
@@ -789,6 +792,25 @@ func (w *World) clientStep(c *simClient) {
 		return
 	}
 	if len(c.sendbuf) > 0 {
+		// pipelining: the next command may be written before the previous one
+		// has been delivered completely, so that one segment carries several
+		if w.plan.Knobs.Frag && len(c.cuts) == 0 && c.pos < len(c.plan.Items) && c.plan.Items[c.pos].Op == "" && len(c.plan.Items[c.pos].Cuts) == 0 &&
+			!c.plan.Items[c.pos].NoReply && len(c.pending) < max(c.plan.Depth, 1) && !w.plan.Knobs.Turns && w.tape.Next(2) == 0 {
+			it := &c.plan.Items[c.pos]
+			op := &Op{Client: c.idx, Idx: c.pos, Item: it, Invoke: w.step, Return: -1, TInvoke: w.Now(), ConnGen: c.connGen}
+			w.history = append(w.history, op)
+			w.stats.Cmds++
+			if len(it.Raw) > 0 {
+				c.sendbuf = append(c.sendbuf, []byte(it.Raw)...)
+			} else {
+				c.sendbuf = append(c.sendbuf, EncodeCmd(it.Args)...)
+			}
+			c.pending = append(c.pending, op)
+			c.pos++
+			w.fault("coalesced-commands")
+			w.logf("C c%d send(+) #%d %s", c.idx, op.Idx, argSummary(it))
+			return
+		}
 		w.deliver(c)
 		return
 	}
@@ -840,6 +862,11 @@ func (w *World) clientStep(c *simClient) {
 		w.history = append(w.history, op)
 		w.stats.Cmds++
 		c.sendbuf = data
+		c.cuts = nil
+		c.sent = 0
+		if len(it.Cuts) > 0 {
+			c.cuts = append([]int(nil), it.Cuts...)
+		}
 		if it.NoReply {
 			c.sendOp = nil
 		} else {
@@ -958,17 +985,32 @@ func (w *World) connect(c *simClient) bool {
 
 func (w *World) deliver(c *simClient) {
 	n := len(c.sendbuf)
-	if w.plan.Knobs.Frag && n > 1 {
+	if len(c.cuts) > 0 {
+		// scripted cut points (offsets from the start of the request)
+		for len(c.cuts) > 0 && c.cuts[0] <= c.sent {
+			c.cuts = c.cuts[1:]
+		}
+		if len(c.cuts) > 0 && c.cuts[0]-c.sent < n {
+			n = c.cuts[0] - c.sent
+			w.fault("fragmented-delivery")
+		}
+	} else if w.plan.Knobs.Frag && n > 1 {
 		// fragment sizes: biased to small pieces, sometimes the rest
-		switch w.tape.Next(4) {
-		case 0:
-			// whole remainder
-		case 1:
-			n = 1
-		case 2:
-			n = 1 + w.tape.Next(min(n, 8))
-		default:
-			n = 1 + w.tape.Next(n)
+		if n > 2048 && c.sent >= 64 {
+			// the body of a large value: coarse pieces (tiny cuts are spent on
+			// header lines and frame boundaries, where the parser has decisions to make)
+			n = min(n, 300+w.tape.Next(9000))
+		} else {
+			switch w.tape.Next(4) {
+			case 0:
+				// whole remainder
+			case 1:
+				n = 1
+			case 2:
+				n = 1 + w.tape.Next(min(n, 8))
+			default:
+				n = 1 + w.tape.Next(min(n, 4096))
+			}
 		}
 		if n < len(c.sendbuf) {
 			w.fault("fragmented-delivery")
@@ -979,6 +1021,7 @@ func (w *World) deliver(c *simClient) {
 		readCap = 1 + w.tape.Next(16)
 	}
 	frag := c.sendbuf[:n]
+	c.sent += n
 	c.sendbuf = c.sendbuf[n:]
 	if len(c.sendbuf) == 0 {
 		c.sendbuf = nil
